@@ -85,6 +85,8 @@ def gen_case(rng):
     term = rng.choice(['blank', 'blank', 'blank', 'eof-nl', 'eof'])
     if yaml and term == 'eof':
         term = 'eof-nl'
+    if yaml and term == 'blank' and rng.random() < 0.4:
+        term = 'fence'          # the closing fence ends the block: the body may follow it directly
     c.term = term
     c.yaml = yaml
     c.eol = eol
@@ -93,6 +95,11 @@ def gen_case(rng):
         c.block_bytes = (block + eol).encode('utf-8')
         c.src = c.block_bytes + eol.encode() + c.body.encode('utf-8')
         c.sep = eol.encode()
+    elif term == 'fence':
+        c.body = rng.choice([b for b in BODIES if not b.startswith(('---', 'key:', '    '))]).replace('\n', eol)
+        c.block_bytes = (block + eol).encode('utf-8')
+        c.src = c.block_bytes + c.body.encode('utf-8')
+        c.sep = b''
     elif term == 'eof-nl':
         c.body = ''
         c.block_bytes = (block + eol).encode('utf-8')
@@ -236,7 +243,7 @@ def check_updates(r, s, c, rng, fam):
             r.violate('%s:keys' % site, 'after update(%r): keys %r, expected %r' % (kq, keys, model_keys), case, core.show(new_src, 400))
             return
         got_body = new_src[end:]
-        exp = (c.sep + body) if c.term == 'blank' else b''
+        exp = (c.sep + body) if c.term in ('blank', 'fence') else b''
         if got_body.lstrip(b'\r\n') != exp.lstrip(b'\r\n'):
             r.violate('%s:body-changed' % site, 'after update(%r): the text after the metadata block changed' % kq, case,
                       'expected %s\ngot      %s' % (core.show(exp, 200), core.show(got_body, 200)))
